@@ -225,7 +225,8 @@ class Target:
         self.pagefail = dict(cfg.get("pagefail", {}))      # ordinal of symbol-list request -> general status it is refused with
         self.n_symreq = 0
         self.corrupt = dict(cfg.get("corrupt", {}))        # ordinal of reply frame -> ["cut", n] | ["flip", i, x]
-        self.slc = {int(k): {"type": v["type"], "words": list(v["words"])} for k, v in (slc or {}).items()} if slc else None
+        self.slc = {int(k): dict({"type": v["type"], "words": list(v["words"])}, **({"recs": [list(r) for r in v["recs"]]} if "recs" in v else {}))
+                    for k, v in (slc or {}).items()} if slc else None
         self.n_services = 0
         self.n_replies = 0
         self.log = []                                       # message-router log (for C14): dicts
@@ -660,6 +661,11 @@ class Target:
         ftype = field()
         elem = field()
         sub = field()
+        if ftype == 0xA5 and fnc == 0xA2:                    # data-log queue `elem`: the oldest record leaves the queue
+            dq = self.slc.get(10000 + elem)
+            if dq is None or not dq["recs"]:
+                return reply(0xF0, ext=0x06)
+            return reply(0, bytes(dq["recs"].pop(0)))
         f = self.slc.get(fno)
         TYPES = {0x89: "N", 0x85: "B", 0x86: "T", 0x87: "C", 0x84: "S", 0x8A: "F", 0x82: "O", 0x83: "I", 0x91: "L", 0x8D: "ST", 0x8E: "A"}
         ESZ = {"N": 1, "B": 1, "T": 3, "C": 3, "S": 1, "F": 2, "O": 1, "I": 1, "L": 2, "ST": 42, "A": 1}
